@@ -624,6 +624,25 @@ func main() {
 		}
 		sc.ArmStep = r.Intn(n)
 		sc.HealStep = sc.ArmStep + 1 + r.Intn(n-sc.ArmStep)
+		// directed family: a persistent fault on exactly one (kind, manifest) pair while a transaction commits and the
+		// manifest rotates on every commit (MaxManifestFileSize 1): commit-time errors after the point of no return
+		// (e.g. removing the old manifest) must not make the transaction's discard destroy what the manifest names
+		if i%16 == 7 && !journalOnly {
+			var txns []int
+			for si, st := range w.Steps {
+				if st.Kind == "txn" {
+					txns = append(txns, si)
+				}
+			}
+			if len(txns) > 0 {
+				w.Cfg.MaxManifest = 1
+				k := []vstor.OpKind{vstor.OpRemove, vstor.OpCloseW, vstor.OpCreate, vstor.OpSync, vstor.OpWrite}[(i/16)%5]
+				sc.Faults = []FaultSpec{{Kind: int(k), Type: int(storage.TypeManifest), K: 0, Persistent: true}}
+				sc.ArmStep = txns[r.Intn(len(txns))]
+				sc.HealStep = sc.ArmStep + 1
+				res.Count("directed_manifest_fault_at_txn", 1)
+			}
+		}
 		if i < 2 {
 			res.Sample(map[string]interface{}{"faults": sc.Faults, "arm_step": sc.ArmStep, "heal_step": sc.HealStep, "steps": len(w.Steps), "cfg": w.Cfg.String()})
 		}
